@@ -103,9 +103,56 @@ def generate(tier, rng):
     return c
 
 
+def modea_literals(res, tier):
+    """EVERY literal up to a length bound over {'{', '}', 'a', ':', '0', ' '} as the to_string of a unit, a tuple and a
+    named variant: the macro's accept / reject decision (its placeholder scanner + the per-kind rules) vs the model"""
+    import itertools
+    from .. import malformed, modea, leanside
+    maxlen = 5 if tier == 'quick' else 7
+    alphabet = ['{', '}', 'a', ':', '0', ' ']
+    ok, err, wall, binp = modea.build()
+    if not ok:
+        raise RuntimeError('mode A build failed:\n' + err)
+    items = []
+    n = 0
+    for L in range(0, maxlen + 1):
+        for t in itertools.product(alphabet, repeat=L):
+            lit = ''.join(t)
+            for shape, v in (('unit', malformed.unit('V', [('to_string', lit)])),
+                             ('tuple', malformed.tup('V', ['u8'], [('to_string', lit)])),
+                             ('named', malformed.named('V', [('a', 'u8')], [('to_string', lit)]))):
+                items.append({'id': 'l%d' % n, 'name': 'Lit%d' % n, 'kind': 'enum', 'lifetimes': 0, 'eattrs': [], 'dattrs': [],
+                              'variants': [v, malformed.unit('Other')], 'shape': shape, 'lit': lit})
+                n += 1
+    lines = []
+    for it in items:
+        e, raw = malformed.resolve(it)
+        lines += e.model_lines() + raw
+    lines += ['vop %s validate Display' % it['id'] for it in items]
+    model = leanside.run_driver(lines)
+    aout = modea.run(binp, ['derive Display %s' % hx(malformed.render_source(it)) for it in items])
+    cls = {'ok': 'accept', 'err': 'reject', 'panic': 'panic'}
+    bad = 0
+    dist = {}
+    for it, m, o in zip(items, model, aout):
+        got = cls.get(o.split(' ')[0], o.split(' ')[0])
+        key = '%s/%s' % (it['shape'], got)
+        dist[key] = dist.get(key, 0) + 1
+        if got != m:
+            bad += 1
+            if bad <= 3:
+                res.violation({'kind': 'disagreement', 'label': 'modeA', 'derive': 'Display', 'rule': 'format-literal/' + it['shape'],
+                               'source': malformed.render_source(it), 'model': m, 'impl': o[:200],
+                               'what': 'accept/reject of a to_string literal differs from the model of the placeholder scanner'})
+    res.cov['modeA_literals'] = {'literals': n // 3, 'max_len': maxlen, 'alphabet': ''.join(alphabet), 'items': n, 'disagreements': bad,
+                                 'distribution': dist, 'exhaustive': True}
+    res.cov['evaluations'] = res.cov.get('evaluations', 0) + n
+
+
 def run(tier, seed, rng):
     res = Result('C17', tier, seed)
     proof_stage(res, 'C17')
+    modea_literals(res, tier)
     c = generate(tier, rng)
     out = correspond(res, c, runner.Workspace('c17'), label='modeB')
     bad = sum(1 for o, got in zip(c.ops, out['impl']) if got and 'oracle' in got)
